@@ -68,6 +68,34 @@ pub fn run_c15(ctx: &mut Ctx) {
                         Ok(Err(e)) => ctx.violation("zinc:decode-by-id-rejected", &format!("{text:?} rejected: {e}"), json!({"text": text, "unit": u.name()})),
                         Err(p) => ctx.violation(&format!("zinc:{}", panic_sig(&p)), &p.msg, json!({"text": text})),
                     }
+                    // the same number followed by ',' / ' ' / '}' / newline: element of a list, tag of a dict, cell of a grid
+                    if (1..=3).contains(&mi) {
+                        let ctext = match mi {
+                            1 => format!("[{text},{text}]"),
+                            2 => format!("{{a:{text} b:{text}}}"),
+                            _ => format!("ver:\"3.0\"\na,b\n{text},{text}\n"),
+                        };
+                        ctx.eval("zinc-decode-by-id-in-container", crate::prng::mix(&[crate::prng::hash_str(id), mi as u64, 7]), true);
+                        let nums = |v: &Value| -> Vec<Number> {
+                            let of = |d: &libhaystack::val::Dict| d.iter().filter_map(|(_, v)| num_of(v)).collect::<Vec<_>>();
+                            match v {
+                                Value::List(l) => l.iter().filter_map(|v| num_of(v)).collect(),
+                                Value::Dict(d) => of(d),
+                                Value::Grid(g) => g.rows.iter().flat_map(|r| of(r)).collect(),
+                                _ => vec![],
+                            }
+                        };
+                        match catch(|| from_str(&ctext)) {
+                            Ok(Ok(v)) => {
+                                let ns = nums(&v);
+                                if ns.len() != 2 || !ns.iter().all(|n| n.unit.is_some_and(|g| same(g, u)) && n.value.to_bits() == x.to_bits()) {
+                                    ctx.violation("zinc:decode-by-id-in-container", &format!("{ctext:?} decodes to {}", crate::ctx::truncate(&crate::bridge::observe(&v).show(), 200)), json!({"text": ctext, "unit": u.name()}));
+                                }
+                            }
+                            Ok(Err(e)) => ctx.violation("zinc:decode-by-id-in-container-rejected", &format!("{ctext:?} rejected: {e}"), json!({"text": ctext, "unit": u.name()})),
+                            Err(p) => ctx.violation(&format!("zinc:{}", panic_sig(&p)), &p.msg, json!({"text": ctext})),
+                        }
+                    }
                 } else {
                     ctx.stratum("id-not-zinc-spellable");
                 }
@@ -88,6 +116,17 @@ pub fn run_c15(ctx: &mut Ctx) {
         for (mi, x) in MAGNITUDES.iter().enumerate() {
             let v = Value::make_number_unit(*x, u);
             ctx.eval("roundtrip", crate::prng::mix(&[crate::prng::hash_str(u.name()), mi as u64, 3]), true);
+            // the streaming encoder into a sink that takes 1-3 bytes per write() writes the same text
+            let sink = catch(|| {
+                let mut w = crate::readers::ShortWriter::new(1 + mi % 3);
+                libhaystack::encoding::zinc::encode::ToZinc::to_zinc(&v, &mut w).ok().map(|_| w.out)
+            });
+            match (&sink, to_zinc_string(&v)) {
+                (Ok(Some(bytes)), Ok(t)) if *bytes == t.as_bytes() => {}
+                (Ok(got), Ok(t)) => ctx.violation("zinc:short-write-sink-differs", &format!("{} {}: to_zinc into a short-write sink gives {:?}, the buffered text is {t:?}", x, u.name(), got.as_ref().map(|b| String::from_utf8_lossy(b).to_string())), json!({"zinc": t})),
+                (Err(p), _) => ctx.violation(&format!("zinc:{}", panic_sig(p)), &p.msg, json!({})),
+                _ => {}
+            }
             let z = catch(|| to_zinc_string(&v).ok().and_then(|t| from_str(&t).ok().map(|b| (t, b))));
             match z {
                 Ok(Some((t, b))) => match num_of(&b) {
@@ -196,6 +235,55 @@ fn rel_close(a: f64, b: f64, rel: f64) -> bool {
     (a - b).abs() <= rel * a.abs().max(b.abs()) + f64::MIN_POSITIVE
 }
 
+fn is_byte_name(n: &str) -> bool {
+    matches!(n, "byte" | "kilobyte" | "megabyte" | "gigabyte" | "terabyte" | "petabyte")
+}
+
+/// the dimension exponents, read field by field (the harness does its own arithmetic on them)
+fn dim_vec(d: &libhaystack::units::unit_dimension::UnitDimensions) -> [i32; 7] {
+    [d.kg as i32, d.m as i32, d.sec as i32, d.k as i32, d.a as i32, d.mol as i32, d.cd as i32]
+}
+
+/// a*b and a/b: when they yield a unit it is a database unit whose dimension vector is the sum / difference and whose
+/// scale is the product / quotient. Returns (products found, quotients found).
+fn check_algebra(ctx: &mut Ctx, a: &'static Unit, b: &'static Unit, known: &HashSet<usize>, history: &str) -> (u64, u64) {
+    let (mut muls_ok, mut divs_ok) = (0u64, 0u64);
+    for (is_mul, res) in [(true, catch(|| a * b)), (false, catch(|| a / b))] {
+        let opname = if is_mul { "mul" } else { "div" };
+        match res {
+            Err(p) => ctx.violation(&format!("unit-{opname}:{}", panic_sig(&p)), &p.msg, json!({"a": a.name(), "b": b.name()})),
+            Ok(Err(_)) => {}
+            Ok(Ok(u)) => {
+                if is_mul {
+                    muls_ok += 1
+                } else {
+                    divs_ok += 1
+                }
+                if !known.contains(&(u as *const Unit as usize)) {
+                    ctx.violation(&format!("unit-{opname}:not-a-database-unit"), &format!("{} {opname} {} yields a unit that is not in the database", a.name(), b.name()), json!({}));
+                    continue;
+                }
+                match (a.dimensions, b.dimensions, u.dimensions) {
+                    (Some(da), Some(db), Some(du)) => {
+                        let (va, vb, vu) = (dim_vec(&da), dim_vec(&db), dim_vec(&du));
+                        let want: Vec<i32> = (0..7).map(|k| if is_mul { va[k] + vb[k] } else { va[k] - vb[k] }).collect();
+                        if vu.to_vec() != want {
+                            ctx.violation(&format!("unit-{opname}:wrong-dimension"), &format!("{} {opname} {} = {} whose dimension {:?} is not the {} {:?}{history}", a.name(), b.name(), u.name(), vu, if is_mul { "sum" } else { "difference" }, want), json!({}));
+                        }
+                        let want_scale = if is_mul { a.scale * b.scale } else { a.scale / b.scale };
+                        // the database's own precision: scales agree to 1e-3 relative (e.g. mile/hour)
+                        if !rel_close(u.scale, want_scale, 1.5e-3) {
+                            ctx.violation(&format!("unit-{opname}:wrong-scale"), &format!("{} {opname} {} = {} with scale {} but the {} of the scales is {}{history}", a.name(), b.name(), u.name(), u.scale, if is_mul { "product" } else { "quotient" }, want_scale), json!({}));
+                        }
+                    }
+                    _ => ctx.violation(&format!("unit-{opname}:dimensionless-operand"), &format!("{} {opname} {} yields {} although an operand has no dimension vector", a.name(), b.name(), u.name()), json!({})),
+                }
+            }
+        }
+    }
+    (muls_ok, divs_ok)
+}
+
 pub fn run_c16(ctx: &mut Ctx) {
     let units = all_units();
     let n = units.len();
@@ -204,6 +292,40 @@ pub fn run_c16(ctx: &mut Ctx) {
     let mut convertible = 0u64;
     let mut muls_ok = 0u64;
     let mut divs_ok = 0u64;
+    // a different call history in every worker process before the exhaustive pass (state carried between calls, e.g. a
+    // memo filled by the first caller, shows up as a wrong answer later): first the pairs whose product or quotient is
+    // one particular unit with a single identifier (one such unit per shard), then 2,000 random pairs in random order
+    if ctx.begin("history-warmup", 0) {
+        let mut rng = ctx.case_rng("history-warmup", ctx.shard);
+        let single: Vec<&'static Unit> = units.iter().copied().filter(|u| u.ids.len() == 1 && u.dimensions.is_some()).collect();
+        if !single.is_empty() {
+            let t = single[(ctx.shard as usize + ctx.seed as usize) % single.len()];
+            let vt = dim_vec(&t.dimensions.unwrap());
+            let mut asked = 0;
+            'outer: for a in units.iter().copied() {
+                for b in units.iter().copied() {
+                    if let (Some(da), Some(db)) = (a.dimensions, b.dimensions) {
+                        let (va, vb) = (dim_vec(&da), dim_vec(&db));
+                        let is_prod = (0..7).all(|k| va[k] + vb[k] == vt[k]) && rel_close(a.scale * b.scale, t.scale, 1e-6);
+                        let is_quot = (0..7).all(|k| va[k] - vb[k] == vt[k]) && rel_close(a.scale / b.scale, t.scale, 1e-6);
+                        if is_prod || is_quot {
+                            check_algebra(ctx, a, b, &known, " (first calls of the process)");
+                            asked += 1;
+                            if asked >= 8 {
+                                break 'outer;
+                            }
+                        }
+                    }
+                }
+            }
+            ctx.note_add("warmup_pairs_resolving_to_a_single_id_unit", asked);
+        }
+        for _ in 0..2_000 {
+            let (a, b) = (units[rng.below(n)], units[rng.below(n)]);
+            check_algebra(ctx, a, b, &known, " (random early history)");
+        }
+        ctx.stratum("history-warmup");
+    }
     // exhaustive over ordered pairs; shards split the first index
     for i in 0..n {
         if (i as u64) % ctx.nshards != ctx.shard {
@@ -215,7 +337,8 @@ pub fn run_c16(ctx: &mut Ctx) {
         let a = units[i];
         for j in 0..n {
             let b = units[j];
-            let same_dim = a.dimensions == b.dimensions || (a.is_byte_unit() && b.is_byte_unit());
+            // (compared exponent by exponent by the harness; byte units are the ones named byte, kilobyte ... petabyte)
+            let same_dim = a.dimensions.as_ref().map(dim_vec) == b.dimensions.as_ref().map(dim_vec) || (is_byte_name(a.name()) && is_byte_name(b.name()));
             ctx.eval("convert-pair", (i * n + j) as u64, i != j);
             for x in mags {
                 match catch(|| a.convert_to(x, b)) {
@@ -261,38 +384,9 @@ pub fn run_c16(ctx: &mut Ctx) {
                 }
             }
             // unit algebra
-            for (is_mul, res) in [(true, catch(|| a * b)), (false, catch(|| a / b))] {
-                let opname = if is_mul { "mul" } else { "div" };
-                match res {
-                    Err(p) => ctx.violation(&format!("unit-{opname}:{}", panic_sig(&p)), &p.msg, json!({"a": a.name(), "b": b.name()})),
-                    Ok(Err(_)) => {}
-                    Ok(Ok(u)) => {
-                        if is_mul {
-                            muls_ok += 1
-                        } else {
-                            divs_ok += 1
-                        }
-                        if !known.contains(&(u as *const Unit as usize)) {
-                            ctx.violation(&format!("unit-{opname}:not-a-database-unit"), &format!("{} {opname} {} yields a unit that is not in the database", a.name(), b.name()), json!({}));
-                            continue;
-                        }
-                        match (a.dimensions, b.dimensions, u.dimensions) {
-                            (Some(da), Some(db), Some(du)) => {
-                                let want = if is_mul { da + db } else { da - db };
-                                if du != want {
-                                    ctx.violation(&format!("unit-{opname}:wrong-dimension"), &format!("{} {opname} {} = {} whose dimension is not the {}", a.name(), b.name(), u.name(), if is_mul { "sum" } else { "difference" }), json!({}));
-                                }
-                                let want_scale = if is_mul { a.scale * b.scale } else { a.scale / b.scale };
-                                // the database's own precision: scales agree to 1e-3 relative (e.g. mile/hour)
-                                if !rel_close(u.scale, want_scale, 1.5e-3) {
-                                    ctx.violation(&format!("unit-{opname}:wrong-scale"), &format!("{} {opname} {} = {} with scale {} but the {} of the scales is {}", a.name(), b.name(), u.name(), u.scale, if is_mul { "product" } else { "quotient" }, want_scale), json!({}));
-                                }
-                            }
-                            _ => ctx.violation(&format!("unit-{opname}:dimensionless-operand"), &format!("{} {opname} {} yields {} although an operand has no dimension vector", a.name(), b.name(), u.name()), json!({})),
-                        }
-                    }
-                }
-            }
+            let (mo, dv) = check_algebra(ctx, a, b, &known, "");
+            muls_ok += mo;
+            divs_ok += dv;
         }
     }
     ctx.note_add("convertible_ordered_pairs", convertible);
